@@ -627,15 +627,17 @@ func (r *runner) storm(a hx.Args) string {
 	return "grants=" + hx.List(gs) + " late=" + hx.IntList(late) + " dlv=" + hx.IntList(ds)
 }
 
-// stale reproduces, on the real code, a poll that is slower than the request time-out. `fill` entries
-// that the polling node never announced make GetTxRequests slow; `targets` txids (spread over all 256
-// buckets) were requested from node 1 and are waiting for node 2. The time-out of the manager under
-// test is set to a quarter of a calibrated poll duration. After the time-out has passed node 2 polls
-// (P1, duration D >= 2 time-outs); P1's result is in grant order, so its last `tail` txids were handed out
-// within the last few of the 256 buckets, i.e. far less than a time-out before P1 returned. Immediately
-// afterwards node 4 announces exactly those txids: `dup` counts the announcements answered `true`
-// (a second request for a txid less than a time-out after the first). The op text gets `slow=1`; if the
-// timing conditions cannot be met in 5 attempts the op reports `unstable` (treated as a skipped line).
+// stale drives, on the real code, a poll that is slower than the request time-out (regression for
+// repository fix 9c84f1c). `fill` entries that the polling node never announced make GetTxRequests slow;
+// `targets` txids (spread over all 256 buckets) were requested from node 1 and are waiting for node 2. The
+// time-out of the manager under test is set to a quarter of a calibrated poll duration. After the time-out
+// has passed node 2 polls (P1, duration D >= 2 time-outs); P1's result is in grant order, so its last `tail`
+// txids were handed out within the last few of the 256 buckets, i.e. far less than a time-out before P1
+// returned. Immediately afterwards node 4 announces exactly those txids: `dup` counts the announcements
+// answered `true` (a second request for a txid less than a time-out after the first; must be 0, was `tail`
+// when LastRequested was stamped with the clock value read at the start of the call). The op text gets
+// `slow=1`; if the timing conditions cannot be met in 5 attempts the op reports `unstable` (the script is
+// then re-run and finally skipped).
 func (r *runner) stale(op string, a hx.Args) string {
 	fill64, _ := a.Int("fill")
 	targets64, _ := a.Int("targets")
